@@ -25,6 +25,8 @@ mod convert;
 mod packet;
 mod server;
 mod socket;
+#[cfg(feature = "verif")]
+pub mod verif;
 mod window;
 mod worker;
 
